@@ -130,17 +130,17 @@ Section Mono.
     intros cf c. induction c; intros l0 th r H Hne; cbn [chk_with] in *.
     - apply Hle; assumption.
     - apply bind_inv in H; [|exact Hne]. destruct H as [[v [Hv H]]|[e [Hv H]]];
-        rewrite (guard_mono ev1 ev2 th _ Hle Hv) by congruence; simpl; congruence.
+        rewrite (guard_mono ev1 ev2 th _ Hle Hv) by congruence; cbn [bind]; first [exact H | congruence].
     - apply bind_inv in H; [|exact Hne]. destruct H as [[v [Hv H]]|[e [Hv H]]];
-        rewrite (guard_mono ev1 ev2 th _ Hle Hv) by congruence; simpl; congruence.
+        rewrite (guard_mono ev1 ev2 th _ Hle Hv) by congruence; cbn [bind]; first [exact H | congruence].
     - apply bind_inv in H; [|exact Hne]. destruct H as [[v [Hv H]]|[e [Hv H]]];
-        rewrite (guard_mono ev1 ev2 th _ Hle Hv) by congruence; simpl; congruence.
+        rewrite (guard_mono ev1 ev2 th _ Hle Hv) by congruence; cbn [bind]; first [exact H | congruence].
     - apply bind_inv in H; [|exact Hne]. destruct H as [[v [Hv H]]|[e [Hv H]]];
-        rewrite (guard_mono ev1 ev2 th _ Hle Hv) by congruence; simpl; congruence.
+        rewrite (guard_mono ev1 ev2 th _ Hle Hv) by congruence; cbn [bind]; first [exact H | congruence].
     - apply bind_inv in H; [|exact Hne]. destruct H as [[v [Hv H]]|[e [Hv H]]];
-        rewrite (guard_mono ev1 ev2 th _ Hle Hv) by congruence; simpl; congruence.
+        rewrite (guard_mono ev1 ev2 th _ Hle Hv) by congruence; cbn [bind]; first [exact H | congruence].
     - apply bind_inv in H; [|exact Hne]. destruct H as [[v [Hv H]]|[e [Hv H]]];
-        rewrite (guard_mono ev1 ev2 th _ Hle Hv) by congruence; simpl; congruence.
+        rewrite (guard_mono ev1 ev2 th _ Hle Hv) by congruence; cbn [bind]; first [exact H | congruence].
     - apply IHc; assumption.
     - destruct (lookup_tyvar k (ltenv l0)); [|exact H].
       destruct (Bool.eqb b (lpol l0)); [|exact H]. apply unseal_mono; assumption.
